@@ -567,6 +567,49 @@ def tiny_indentation(run):
                "fitted-fixed-cp")
 
 
+def unfitted_sequence_cases(run):
+    """curves that have settings but no fit (only preprocessed; a setting
+    edited after the fit), of approach lengths on both sides of the
+    600-point criterion, analysed one after the other in both orders: the
+    size criterion is each curve's own (and the rest NaN)"""
+    sizes = [2000, 300, 700, 450, 90, 601, 599]
+    made = []
+    for j, n_app in enumerate(sizes):
+        cols, k = c07.synthetic("hertz_para", 40 + j, n_app=n_app, n_ret=150,
+                                noise=2e-11)
+        idnt = curves.make_indentation(cols, k=k)
+        with warnings.catch_warnings():
+            warnings.simplefilter("ignore")
+            idnt.apply_preprocessing(list(PIPE))
+            if j % 3 == 2:
+                idnt.fit_model(model_key="hertz_para")
+                idnt.fit_properties["weight_cp"] = 3e-6     # unfitted again
+        made.append((n_app, idnt))
+    for order in (made, made[::-1]):
+        for n_app, idnt in order:
+            run.case({"unfitted-sequence": n_app,
+                      "first": order[0][0]}, kind="unfitted-sequence")
+            key = f"unfitted-sequence:{order[0][0]}:{n_app}"
+            try:
+                vals, names = feats(idnt, ret_names=True)
+                v = dict(zip(names, [float(x) for x in vals]))
+                want = 1.0 if n_app >= 600 else 0.0
+                why = None
+                if v["feat_bin_size"] != want:
+                    why = (f"feat_bin_size = {v['feat_bin_size']} for an "
+                           f"unfitted curve with {n_app} approach points "
+                           f"(analysed after "
+                           f"{[a for a, _ in order[:[b for b, _ in order].index(n_app)]]})")
+                elif [n_ for n_, x in v.items() if n_ != "feat_bin_size"
+                      and not math.isnan(x)]:
+                    why = "features other than the size criterion are not NaN"
+            except BaseException as e:
+                why = f"raised {type(e).__name__}: {e}"
+            if why:
+                run.failing(SITE, key, why, payload={"kind": "rerun"},
+                            theorem="C17_guards")
+
+
 def type_list_cases(run):
     """which_type given as a list / tuple of types (any order): names and
     indices are those of the union, in sorted-name order, and the indices
@@ -768,6 +811,7 @@ def check(run):
                     run.count("coq-arithmetic")
     breakthrough(run)
     tiny_indentation(run)
+    unfitted_sequence_cases(run)
     returned_name_lists(run)
     type_list_cases(run)
     gauss_assumption(run)
